@@ -784,15 +784,16 @@ fn case_json(plan: &Plan, ops_list: &[Op]) -> Value {
 fn run_which(ctx: &Ctx, which: Which) -> Stats {
     let quick = ctx.quick();
     let (n, len) = match which {
-        Which::Undo => (if quick { 2400 } else { 60000 }, 30),
-        Which::Redo => (if quick { 2400 } else { 60000 }, 40),
-        Which::Replica => (if quick { 2000 } else { 50000 }, 36),
-        Which::Failed => (if quick { 2400 } else { 60000 }, 40),
-        Which::Reload => (if quick { 2000 } else { 50000 }, 36),
-        Which::Structure => (if quick { 3000 } else { 80000 }, 40),
-        Which::Selection => (if quick { 3000 } else { 80000 }, 40),
+        Which::Undo => (if quick { 5000 } else { 120000 }, 30),
+        Which::Redo => (if quick { 12000 } else { 300000 }, 40),
+        Which::Replica => (if quick { 10000 } else { 250000 }, 36),
+        Which::Failed => (if quick { 10000 } else { 250000 }, 40),
+        Which::Reload => (if quick { 10000 } else { 250000 }, 36),
+        Which::Structure => (if quick { 12000 } else { 300000 }, 40),
+        Which::Selection => (if quick { 8000 } else { 200000 }, 40),
     };
-    let budget = Duration::from_secs(if quick { 150 } else { 1500 });
+    // wall budget: only ever cuts the workload short (less coverage), never a verdict
+    let budget = Duration::from_secs(if quick { 100 } else { 1500 });
     let seed = ctx.seed;
     let stream = which as u64 + 100;
     // Two passes when open known findings name `avoid` switches: even cases run the
